@@ -72,6 +72,28 @@ Example C16_pco_contents_ex :
   chain [128; 0;1;2;7;9; 0;2;0; 0;3;5;1] 1 [mkpcu 1 2 [7;9]; mkpcu 2 0 []].
 Proof. split; [reflexivity|]. eapply pco_contents_from_input. reflexivity. Qed.
 
+(* The exact set of byte strings UnMarshal accepts and what it returns: bs is
+   accepted with result l iff l is well-formed and bs is any first octet, the
+   canonical encoding of l, and a trailer that is empty, a dangling identifier
+   (2 octets) or a dangling identifier with a non-zero length octet (3 octets;
+   these two incomplete last units are dropped without an error).  Hence the
+   parser is an exact left inverse of Marshal up to that trailer, and it never
+   checks the first octet. *)
+Theorem C16_pco_accepts_iff : forall bs l, bytes_ok bs ->
+  (UnMarshal bs = Ok l <->
+   wf_pco l /\ exists x tl, bs = x :: marshal_units l ++ tl /\ trailer tl).
+Proof. exact pco_accepts_iff. Qed.
+
+(* whatever UnMarshal returns (with or without error) is well-formed *)
+Theorem C16_pco_result_wf : forall bs l e, bytes_ok bs ->
+  UnMarshalFull [] bs = Ok (l, e) -> wf_pco l.
+Proof. exact pco_result_wf. Qed.
+
+Example C16_pco_trailer_ex :
+  UnMarshal [128; 0;1;0; 0;2] = Ok [mkpcu 1 0 []] /\ UnMarshal [128; 0;1;0; 0;2;5] = Ok [mkpcu 1 0 []] /\
+  UnMarshal [128; 0;1;0; 0] = Err /\ UnMarshal [128; 0;1;0; 0;2;5;9] = Err.
+Proof. repeat split; reflexivity. Qed.
+
 (* PDU session status bitmap, TS 24.501 9.11.3.44: octet 3 (first) bit k+1 =
    PSI(k), octet 4 bit k+1 = PSI(8+k); entry i of the array is PSI(i) = bit i of
    the 16-bit value a + 256 b.  Both directions, all 2^16 values. *)
@@ -124,6 +146,8 @@ Print Assumptions C16_pco_total.
 Print Assumptions C16_pco_total_full.
 Print Assumptions C16_pco_contents_from_input.
 Print Assumptions C16_pco_contents_octets_from_input.
+Print Assumptions C16_pco_accepts_iff.
+Print Assumptions C16_pco_result_wf.
 Print Assumptions C16_psi_bitmap_roundtrip_buf.
 Print Assumptions C16_psi_bitmap_roundtrip_array.
 Print Assumptions C16_psi_total.
